@@ -40,8 +40,8 @@ ASSUMPTIONS = ['indexing, slicing and iteration in MSB0 mode only (the LSB0 inde
                'Python str indexing, slicing, + and * are the trusted definition of the sequence operations',
                'a zero slice step must raise ValueError as it does for every built-in sequence']
 
-PROMOTABLE = ['str', 'hexstr', 'bytes', 'bytearray', 'memoryview', 'list', 'tuple', 'gen', 'truthy', 'truthy-iter', 'bitarray', 'array', 'BytesIO'] + util.SUBCLASS_KINDS
-BYTE_KINDS = ('bytes', 'bytearray', 'memoryview', 'array', 'BytesIO', 'bytes-sub', 'bytearray-sub', 'memoryview-ro')
+PROMOTABLE = ['str', 'hexstr', 'bytes', 'bytearray', 'memoryview', 'list', 'tuple', 'gen', 'truthy', 'truthy-iter', 'bitarray', 'array', 'BytesIO', 'BytesIO-used', 'BytesIO-written'] + util.SUBCLASS_KINDS
+BYTE_KINDS = ('bytes', 'bytearray', 'memoryview', 'array', 'BytesIO', 'BytesIO-used', 'BytesIO-written', 'bytes-sub', 'bytearray-sub', 'memoryview-ro')
 MUL_NS = [-2, -1, 0, 1, 2, 3, 4, 5, 7, 8, 9, 15, 16, 17, 31, 32, 33, 64, 65, 100, 1000]
 HUGE = [10 ** 6, -10 ** 6, 2 ** 63, -2 ** 63 - 1, 10 ** 30, -10 ** 30]
 PRODUCT_LENGTHS = [x for x in util.LENGTHS if x <= 33]
@@ -83,8 +83,11 @@ def rand_triple(rng, L: int):
 # ---- construction ------------------------------------------------------------------------------
 def rand_route(rng):
     """None = cls(bin=...); [pre, post] = slice of cls(bin=pre+bits+post) at an odd offset."""
-    if rng.random() < 0.5:
+    r = rng.random()
+    if r < 0.5:
         return None
+    if r < 0.62:
+        return [rng.choice(['pickle', 'deepcopy', 'pickle-of-slice'])]      # an object that came back from a pickle / deep copy
     return [rb(rng, rng.choice([1, 3, 5, 7, 9, 11, 63, 65])), rb(rng, rng.choice([0, 1, 2, 7, 8, 13]))]
 
 
@@ -109,6 +112,12 @@ def build(spec, pos=None, receiver=None):
     if len(spec) >= 4:
         pre, post = spec[2], spec[3]
         s = mk(k, pre + bits + post)[len(pre):len(pre) + len(bits)]
+    elif len(spec) == 3:
+        import copy as _copy
+        import pickle as _pickle
+        with util.options(lsb0=False):
+            src = mk(k, '101' + bits + '1')[3:3 + len(bits)] if spec[2] == 'pickle-of-slice' else mk(k, bits)
+        s = _copy.deepcopy(src) if spec[2] == 'deepcopy' else _pickle.loads(_pickle.dumps(src))
     else:
         s = mk(k, bits)
     if pos is not None and k in STREAMS:
@@ -120,7 +129,7 @@ def fit_bits(rng, kind: str, n: int) -> str:
     """Content of about n bits that `kind` can carry (whole bytes / whole nibbles)."""
     if kind in BYTE_KINDS:
         n = (n + 7) // 8 * 8
-        if kind == 'BytesIO':
+        if kind.startswith('BytesIO'):
             n = max(n, 8)
     elif kind == 'hexstr':
         n = max(4, (n + 3) // 4 * 4)
